@@ -1,6 +1,6 @@
 (* Request/response interface of the executable model: one S-expression in,
    one out.  Shared by the extracted runner and the in-Coq path. *)
-From InfluxQL Require Import Base.Prelude Base.Sexp Base.Oracles Lex.Token Lex.Reader Lex.Scanner Ast.Ast
+From InfluxQL Require Import Base.Prelude Base.Sexp Base.Oracles Lex.Token Lex.Reader Lex.Scanner Ast.Ast Ast.SexpAst
   Val.Duration Parse.ExprTree Parse.Instr Parse.ParseExpr.
 
 Definition bad_request : sexp := L [A (-1)].
@@ -88,6 +88,7 @@ Definition dispatch1 (orc : oracles) (req : sexp) : sexp :=
           end
       | 3%nat, [] => token_table orc
       | 4%nat, [src] => match sd_text src with Some t => scan_text orc t | None => bad_request end
+      | 6%nat, [st] => match sd_stmt st with Some st' => se_stmt st' | None => bad_request end
       | 5%nat, [src; params] =>
           match sd_text src, sd_params params with
           | Some t, Some ps => se_parse se_expr (run (o_ulower orc) (parse_expr orc (fuel_of t)) (new_pstate t ps))
